@@ -234,6 +234,10 @@ def corpus():
         ws = dinfo(48, d)[0]
         out.append(Case('eui_set %s %d 0 %d' % (d, 0x001b774954fd, (1 << ws) - 1), 'corpus/F8',
                         ('set', 48, d, 0x001b774954fd, 0, (1 << ws) - 1)))
+    # adversarial seed adv6-3: modified_eui64() through word assignment under the receiver's dialect
+    for d in ('eui64_cisco', 'eui64_bare'):
+        out.append(Case('eui_derive 64 %d %d' % (0x001b77fffeaabbcc, 0xfe80 << 112), 'corpus/adv6-3',
+                        ('derive', 64, 0x001b77fffeaabbcc, 0xfe80 << 112, d)))
     for d in ('eui64_cisco', 'eui64_bare'):
         out.append(Case('eui_acc 64 %d -' % 0x001b77fffe4954fd, 'corpus/F8', ('acc', 64, d, 0x001b77fffe4954fd, None)))
         ws = dinfo(64, d)[0]
@@ -300,7 +304,8 @@ def generate(rng, tier):
                               ('acc', ver, d, v, sp)))
             pfx = rng.choice((0, 0xfe80 << 112, 0x20010db8 << 96, rng.getrandbits(64) << 64, rng.getrandbits(128),
                               (1 << 128) - 1, ((1 << 64) - 1) << 64, (1 << 128) - (1 << 57)))
-            cases.append(Case('eui_derive %d %d %d' % (ver, v, pfx), 'derive/%d' % ver, ('derive', ver, v, pfx)))
+            dd = rng.choice(dialects(ver))          # the derived identifiers do not depend on the dialect of the receiver
+            cases.append(Case('eui_derive %d %d %d' % (ver, v, pfx), 'derive/%d' % ver, ('derive', ver, v, pfx, dd)))
         # ints and integer strings around the version boundaries
         for n in [-1, 0, 1, MAXV[48] - 1, MAXV[48], MAXV[48] + 1, MAXV[64] - 1, MAXV[64], MAXV[64] + 1, 1 << 70] + \
                 [rand_value(rng, 64) for _ in range(6 * mult)]:
@@ -397,8 +402,8 @@ def impl(c):
             return '!' if int(e) == v else '?changed-on-error'
         return str(int(e)) if e.version == ver else '?version'
     if a[0] == 'derive':
-        _, ver, v, pfx = a
-        e = EUI(v, version=ver)
+        _, ver, v, pfx, dd = a
+        e = EUI(v, version=ver, dialect=dialect_obj(ver, dd))
         return ' '.join([_try(e.eui64, _vv), _try(e.modified_eui64, _vv),
                          _try(lambda: e.ipv6(pfx), lambda ip: str(int(ip)) if ip.version == 6 else '?v4'),
                          _try(e.ipv6_link_local, lambda ip: str(int(ip)) if ip.version == 6 else '?v4')])
@@ -492,7 +497,7 @@ def oracle(c, got):
             ok = ('!',)
         return None if got in ok else 'word assignment gave %s, expected %s' % (got, ok[0])
     if a[0] == 'derive':
-        _, ver, v, pfx = a
+        _, ver, v, pfx, dd = a
         e64 = (((v >> 24) << 40) | (0xfffe << 24) | (v & 0xffffff)) if ver == 48 else v
         mod = e64 ^ (1 << 57)
         f = lambda x: str(x) if x < (1 << 128) else '!'
@@ -526,5 +531,5 @@ def repro(c):
     if a[0] == 'set':
         return 'e = EUI(%d, version=%d, dialect=<%s>); e[%d] = %d; int(e)' % (a[3], a[1], a[2], a[4], a[5])
     if a[0] == 'derive':
-        return 'e = EUI(%d, version=%d); e.eui64(), e.modified_eui64(), e.ipv6(%d), e.ipv6_link_local()' % (a[2], a[1], a[3])
+        return 'e = EUI(%d, version=%d, dialect=<%s>); e.eui64(), e.modified_eui64(), e.ipv6(%d), e.ipv6_link_local()' % (a[2], a[1], a[4], a[3])
     return 'EUI(%d, version=%d, dialect=<%s>) <cmp> EUI(%d, version=%d, dialect=<%s>)' % (a[3], a[1], a[2], a[6], a[4], a[5])
